@@ -128,13 +128,17 @@ def _nontrivial(c):
 
 
 def make_judge(ctx, divs):
+    calls = []
+
     def judge(recs):
         bad = vlib.tlc_judge(ctx, JUDGE, "UpdatesJudge.cfg", recs,
                              shards=max(1, min(8, len(recs) // 2000)), timeout=1500)
+        calls.append(1)
         real = []
         for i, why, kf in bad:
             if DIV in (kf or []):
-                divs.append((i, why))
+                if len(calls) == 1:      # the confirmation re-run (second call) has its own indices
+                    divs.append((i, why))
             else:
                 real.append((i, why, kf))
         return real
